@@ -65,6 +65,9 @@ class Enc:
         self.funcs = funcs or {}
         self.glob = glob or Glob()
         self.ref_of = {}
+        self.ref_base = {}        # local holding a reference -> base object ("_k" or "*_k") it points to
+        self.mut_ref = {}         # local holding a &mut reference -> base object
+        self.origin = {}          # local -> "parsed" (result of str::parse / from_str_radix) | "argval" (by-value parameter)
         self.blocks = {b.id: b for b in fn.blocks.values() if not b.cleanup}
         self.reach = {}
         self.val = {}
@@ -77,6 +80,7 @@ class Enc:
         self.order = []
         self.arg_terms = {}
         self.modelled_flags = set()
+        self.len_terms = []       # every term that is the length of an existing slice / collection
         self._prepare()
         self._run()
 
@@ -91,6 +95,7 @@ class Enc:
             if hint.startswith("len"):
                 # slice / Vec lengths never exceed isize::MAX
                 self.extra.append(z3.And(v >= 0, v <= 2**63 - 1))
+                self.len_terms.append(v)
             elif hint.startswith("u:"):
                 self.extra.append(v >= 0)
             m = re.match(r"^(?:u:)?ty:(\w+):", hint)
@@ -199,7 +204,7 @@ class Enc:
         m = re.match(r"^const (-?\d+)_(?:[iu](?:8|16|32|64|128|size))$", txt)
         if m:
             return z3.IntVal(int(m.group(1)))
-        m = re.match(r"^const ([iu](?:8|16|32|64|128|size))::(MIN|MAX)$", txt)
+        m = re.match(r"^const (?:core::num::<impl )?([iu](?:8|16|32|64|128|size))>?::(MIN|MAX)$", txt)
         if m:
             lo, hi = INT_RANGES[m.group(1)]
             return z3.IntVal(lo if m.group(2) == "MIN" else hi)
@@ -209,10 +214,41 @@ class Enc:
         m = re.match(r"^const (.*::promoted\[\d+\])$", txt)
         if m:
             return self.promoted_value(m.group(1))
+        m = re.match(r"^const ((?:\w+::)+)([A-Z][A-Z0-9_]*)$", txt)
+        if m:
+            v = self.named_const(m.group(2))
+            if v is not None:
+                return v
         m = re.match(r"^(?:const )?((?:[\w:]*::)?ConnectionState::[A-Z]\w*)$", txt)
         if m:
             return z3.IntVal(enum_id(m.group(1)))
         return None
+
+    _NAMED = {}
+
+    def named_const(self, name):
+        """value of an integer `const NAME: T = <expr>` item whose body is in the dump (evaluated by
+        encoding the body; accepted only if it simplifies to one integer literal and NAME is unique)"""
+        key = (id(self.funcs), name)
+        if key in Enc._NAMED:
+            return Enc._NAMED[key]
+        Enc._NAMED[key] = None
+        f = self.funcs.get("const " + name)
+        if f is not None and self.glob.inline_depth < 3:
+            try:
+                g = Glob()
+                g.inline_depth = self.glob.inline_depth + 1
+                e = Enc(f, self.funcs, g)
+                rets = [b for b in e.order if e.blocks[b].term and e.blocks[b].term["kind"] == "return"]
+                if len(rets) == 1:
+                    v = e.out_state[rets[0]].get("_0")
+                    if v is not None:
+                        v = z3.simplify(v)
+                        if z3.is_int_value(v):
+                            Enc._NAMED[key] = v
+            except Exception:
+                pass
+        return Enc._NAMED[key]
 
     def promoted_value(self, path):
         suffix = "::".join(path.split("::")[-2:])
@@ -256,7 +292,9 @@ class Enc:
                 ty = m.group(1).rsplit(": ", 1)[-1].rstrip(")") if ": " in m.group(1) else None
                 srt = self.sort_of_type(ty)
                 if srt:
-                    st[key] = self.fresh(srt, "ty:%s:place" % (ty or "?"))
+                    root = re.search(r"(_\d+)", m.group(1))
+                    org = self.origin.get(root.group(1)) if root else None
+                    st[key] = self.fresh(srt, "ty:%s:place%s" % ((ty or "?"), ("_" + org) if org else ""))
             return st.get(key)
         return None
 
@@ -265,13 +303,25 @@ class Enc:
         v = self.operand(st, rhs)
         if v is not None:
             return v
-        m = re.match(r"^((?:copy |move )?\S+) as [iu](?:8|16|32|64|128|size) \(IntToInt\)$", rhs)
+        m = re.match(r"^((?:copy |move )?(.+?)) as ([iu](?:8|16|32|64|128|size)) \(IntToInt\)$", rhs)
         if m:
-            # integer-to-integer cast: the mathematical value is kept (wrap-around of out-of-range
-            # values is not modelled; casts feed comparisons of small lengths and counts here)
+            # integer-to-integer cast, exact: identity when the source type fits into the target
+            # type, two's-complement wrap-around ((a - lo) mod 2^w + lo) otherwise
             a = self.operand(st, m.group(1))
             if a is not None and z3.is_int(a):
-                return a
+                lo, hi = INT_RANGES[m.group(3)]
+                sty = self.ltype(m.group(2)) if re.match(r"^_\d+$", m.group(2)) else None
+                if z3.is_int_value(a):
+                    return z3.IntVal((a.as_long() - lo) % (hi - lo + 1) + lo)
+                if sty in INT_RANGES and INT_RANGES[sty][0] >= lo and INT_RANGES[sty][1] <= hi:
+                    return a
+                return (a - lo) % (hi - lo + 1) + lo
+        m = re.match(r"^Neg\(((?:copy |move )?\S+)\)$", rhs)
+        if m:
+            # the overflow-checks=on dump asserts `x != MIN` before every signed negation
+            a = self.operand(st, m.group(1))
+            if a is not None and z3.is_int(a):
+                return -a
         m = re.match(r"^Not\((.*)\)$", rhs)
         if m:
             a = self.operand(st, m.group(1))
@@ -335,7 +385,15 @@ class Enc:
                     if z3.is_int_value(b2) and b2.as_long() > 0:
                         # unsigned operands: truncating = euclidean
                         return a % b2 if op == "Rem" else a / b2
-        m = re.match(r"^(Add|Sub)WithOverflow\((.*)\)$", rhs)
+        m = re.match(r"^Mul\((.*)\)$", rhs)
+        if m:
+            from .parse import split_top
+            ops = split_top(m.group(1))
+            if len(ops) == 2:
+                a, b2 = self.operand(st, ops[0]), self.operand(st, ops[1])
+                if a is not None and b2 is not None and z3.is_int(a) and z3.is_int(b2) and (z3.is_int_value(a) or z3.is_int_value(b2)):
+                    return a * b2       # linear: one factor is a constant
+        m = re.match(r"^(Add|Sub|Mul)WithOverflow\((.*)\)$", rhs)
         if m:
             from .parse import split_top
             ops = split_top(m.group(2))
@@ -343,8 +401,10 @@ class Enc:
             mt = re.match(r"^\((\w+), bool\)$", ty)
             if len(ops) == 2 and mt:
                 a, b2 = self.operand(st, ops[0]), self.operand(st, ops[1])
+                if m.group(1) == "Mul" and not (a is not None and b2 is not None and (z3.is_int_value(a) or z3.is_int_value(b2))):
+                    a = None
                 if a is not None and b2 is not None and z3.is_int(a) and z3.is_int(b2):
-                    r = a + b2 if m.group(1) == "Add" else a - b2
+                    r = a + b2 if m.group(1) == "Add" else (a - b2 if m.group(1) == "Sub" else a * b2)
                     st["place:(%s.0: %s)" % (dest, mt.group(1))] = r
                     if mt.group(1) in INT_RANGES:
                         lo, hi = INT_RANGES[mt.group(1)]
@@ -418,6 +478,20 @@ class Enc:
                     if v is not None:
                         self.extra.extend(e.extra)
                         return v
+        mm = re.search(r"(?:std::cmp::|core::cmp::|<[iu](?:8|16|32|64|size) as Ord>::)(min|max)(?:::<[iu](?:8|16|32|64|size)>)?$", callee)
+        if mm and len(a) == 2 and a[0] is not None and a[1] is not None and z3.is_int(a[0]) and z3.is_int(a[1]):
+            return z3.If(a[0] <= a[1], a[0], a[1]) if mm.group(1) == "min" else z3.If(a[0] >= a[1], a[0], a[1])
+        mm = re.search(r"^(?:core::num::<impl )?([iu](?:8|16|32|64|size))>?::(saturating_sub|saturating_add|wrapping_neg|unsigned_abs|abs)$", callee)
+        if mm and a and all(x is not None and z3.is_int(x) for x in a):
+            lo, hi = INT_RANGES[mm.group(1)]
+            if mm.group(2) == "saturating_sub" and len(a) == 2:
+                r = a[0] - a[1]
+                return z3.If(r < lo, z3.IntVal(lo), z3.If(r > hi, z3.IntVal(hi), r))
+            if mm.group(2) == "saturating_add" and len(a) == 2:
+                r = a[0] + a[1]
+                return z3.If(r < lo, z3.IntVal(lo), z3.If(r > hi, z3.IntVal(hi), r))
+            if mm.group(2) == "unsigned_abs" and len(a) == 1:
+                return z3.If(a[0] < 0, -a[0], a[0])
         if re.search(r"Option::<bool>::unwrap_or$", callee) and len(args) == 2:
             ml = re.match(r"^(?:copy |move )?(_\d+)$", args[0].strip())
             ob = st.get("opt:" + ml.group(1)) if ml else None
@@ -491,6 +565,8 @@ class Enc:
             st.pop(k, None)
         st.pop("opt:" + local, None)
         st.pop("range:" + local, None)
+        st.pop("len:" + local, None)
+        st.pop("len:*" + local, None)
 
     def _run(self):
         self.out_state = {}
@@ -507,6 +583,13 @@ class Enc:
             st = self._merge(b)
             if b == 0:
                 for a in self.fn.args:
+                    aty = self.ltype(a) or ""
+                    if not aty.startswith("&") and not aty.startswith("*"):
+                        self.origin[a] = "argval"
+                    elif aty.startswith("&mut"):
+                        self.mut_ref[a] = "*" + a
+                    if aty.startswith("&"):
+                        self.ref_base[a] = "*" + a
                     srt = self.sort_of_type(self.ltype(a))
                     if a in self.bind:
                         st[a] = self.bind[a]
@@ -531,8 +614,33 @@ class Enc:
                     mb = re.search(r"(_\d+)", d)
                     if mb:
                         self._kill(st, mb.group(1))
+                        if mb.group(1) in self.mut_ref:
+                            st.pop("len:" + self.mut_ref[mb.group(1)], None)
                     continue
                 local = md.group(1)
+                mb_ = re.match(r"^&(mut )?(?:raw (?:const|mut) )?(_\d+|\(\*_\d+\))$", rhs)
+                if mb_:
+                    base = mb_.group(2)
+                    base = ("*" + base[2:-1]) if base.startswith("(") else base
+                    if base.startswith("*") and base[1:] in self.ref_base:
+                        base = self.ref_base[base[1:]]      # reborrow through a reference local
+                    self.ref_base[local] = base
+                    if mb_.group(1):
+                        self.mut_ref[local] = base
+                        st.pop("len:" + base, None)
+                else:
+                    mv_ = re.match(r"^(?:copy |move )(_\d+)$", rhs)
+                    if mv_:
+                        for tab in (self.ref_base, self.mut_ref, self.origin):
+                            if mv_.group(1) in tab:
+                                tab[local] = tab[mv_.group(1)]
+                    else:
+                        # a field moved out of an input (by-value parameter / parse result) is an input
+                        mp_ = re.match(r"^(?:copy |move )\((?:\(?\*?)*(_\d+)\b[^*]*\)$", rhs)
+                        if mp_ and mp_.group(1) in self.origin and "(*" not in rhs:
+                            self.origin[local] = self.origin[mp_.group(1)]
+                        elif local in self.origin and not rhs.startswith("const "):
+                            self.origin.pop(local, None)
                 mr = re.match(r"^&(?:mut )?(\(.*\))$", rhs)
                 if mr:
                     self.ref_of[local] = mr.group(1)
@@ -551,7 +659,10 @@ class Enc:
                 if v is None:
                     srt = self.sort_of_type(self.ltype(local))
                     # reference to something tracked keeps its value; otherwise fresh
-                    hint = "ty:%s:%s_bb%d_%d" % ((self.ltype(local) or "?"), local, b, idx)
+                    # the result of an operator the encoding does not model is arbitrary HERE but not
+                    # in reality: marked `unm_` so that queries treat terms built from it as undecided
+                    unm = "unm_" if re.match(r"^(Mul|Div|Rem|Shl|Shr|BitAnd|BitOr|BitXor|Add|Sub|Neg|Not|\w+WithOverflow)\(", rhs) or " as " in rhs else ""
+                    hint = "ty:%s:%s%s_bb%d_%d" % ((self.ltype(local) or "?"), unm, local, b, idx)
                     v = self.fresh(srt, hint) if srt else None
                 if v is not None:
                     st[local] = v
@@ -593,10 +704,21 @@ class Enc:
                 elif dest and re.match(r"^_\d+$", dest):
                     self._kill(st, dest)
                     srt = self.sort_of_type(self.ltype(dest))
+                    lenkey = None
+                    if v is None and srt == "int" and re.search(r"::len$", t["callee"]) and len(t["args"]) == 1:
+                        ml_ = re.match(r"^(?:copy |move )?(_\d+)$", t["args"][0].strip())
+                        if ml_ and ml_.group(1) in self.ref_base:
+                            # x.len() of an object that has not been borrowed mutably since the
+                            # last len() call returns the same number
+                            lenkey = "len:" + self.ref_base[ml_.group(1)]
+                            v = st.get(lenkey)
                     if v is None and srt:
                         v = self.fresh(srt, "ty:%s:call_bb%d" % ((self.ltype(dest) or "?"), b))
                         if srt == "int" and re.search(r"::(len|count|capacity)$", t["callee"]):
                             self.extra.append(z3.And(v >= 0, v <= 2**63 - 1))
+                            self.len_terms.append(v)
+                    if lenkey:
+                        st[lenkey] = v
                     if v is not None:
                         st[dest] = v
                         self.site[b] = v
@@ -615,13 +737,16 @@ class Enc:
                 if getattr(self, "_pending_disc", None):
                     st[self._pending_disc[0]] = self._pending_disc[1]
                     self._pending_disc = None
-                # arguments passed by &mut may be modified: kill them
+                # objects reachable through a &mut argument may have been modified: forget their length
                 for x in t["args"]:
                     mm = re.match(r"^(?:move |copy )?(_\d+)$", x.strip())
-                    if mm:
-                        ty = self.ltype(mm.group(1)) or ""
-                        if ty.startswith("&mut"):
-                            pass
+                    if mm and mm.group(1) in self.mut_ref:
+                        st.pop("len:" + self.mut_ref[mm.group(1)], None)
+                if dest and re.match(r"^_\d+$", dest):
+                    if re.search(r"::parse::<|::from_str_radix$|as FromStr>::from_str$", t["callee"]):
+                        self.origin[dest] = "parsed"
+                    else:
+                        self.origin.pop(dest, None)
             # edges
             for s, lab in blk.succ:
                 if s not in self.blocks:
